@@ -90,6 +90,10 @@ func (r *Rng) KeyType(o *TypeOpts) reflect.Type {
 			switch t.Name() {
 			case "NamedInt", "NamedUint8", "NamedString", "TextV", "TextKey", "IntKeyText":
 				ks = append(ks, t)
+			case "ReuseKey":
+				if o.BothKeys {
+					ks = append(ks, t)
+				}
 			case "Both":
 				// a key type that also is a json.Marshaler (as a key its text method is used,
 				// as a value its JSON method); encode direction only
